@@ -73,6 +73,22 @@ def extreme_archives(rng, sc):
     for meth, pl in payloads.items():
         m = arc.Member(level=1, method=meth.encode(), name=b"e", payload=pl, length=0xFFFFFFFF, crc=0)
         put("endless_" + meth.strip("-"), m.bytes() + ok + b"\0")
+    # -pm1- really is endless once its header has been read (the stream continues on zero bits): the declared length alone stops it,
+    # whatever that length is - in particular 0, and lengths around the decoder's internal buffer sizes
+    for pl in (b"\xfd\x00\x00", b"\xfd", b"\xff\xff\xff"):
+        for ln in (0, 1, 2, 63, 64, 65, 4095, 4096, 4097, 20000):
+            m = arc.Member(level=1, method=b"-pm1-", name=b"e", payload=pl, length=ln, crc=0)
+            put("pm1zero_%s_%d" % (pl.hex(), ln), m.bytes() + ok + b"\0")
+    # the same question for every other method: a declared length of 0 (or 1) in front of data that would decode to more
+    pool = RG.compressed_pool()
+    for meth in sorted(pool):
+        payload, plain = pool[meth]
+        mm = meth.encode()
+        if mm == b"-lk7-":
+            continue
+        for ln in (0, 1):
+            m = arc.Member(level=1, method=mm, name=b"z", payload=payload, length=ln, crc=arc.crc16(plain[:ln]))
+            put("declared%d_%s" % (ln, meth.strip("-")), m.bytes() + ok + b"\0")
     return out
 
 
@@ -150,6 +166,8 @@ def run(tier, seed, ev):
                     q = rng.random()
                     if cls == "manydec":
                         ops.append(rng.choice(["C", "A4096", "R10", "C"]))
+                    elif cls == "extreme" and os.path.basename(f).startswith(("x_pm1zero", "x_declared")):
+                        ops.append(rng.choice(["A4096", "A512", "C", "A4096"]))
                     elif cls == "extreme":
                         # decode a bounded number of requested bytes, however large the declared size
                         ops += ["R4096"] * rng.choice([1, 3, 6]) if q < 0.7 else []
